@@ -11,7 +11,8 @@ WAVES = {'a': 'first wave', 'b': 'second wave (avoid the obvious mutation)', 'c'
          'd': 'fourth wave (plain wording again, checks frozen during evaluation)',
          'e': 'fifth wave (audit of the unmodified code plus changes in dimensions a harness author would not think of)',
          'f': 'sixth wave (review of the 26 repairs and a second audit, then two changes)',
-         'g': 'seventh wave (review of the six newest repairs and a third audit, then two changes)'}
+         'g': 'seventh wave (review of the six newest repairs and a third audit, then two changes)',
+         'h': 'eighth wave (review of the four newest repairs and a fourth audit, then two changes)'}
 
 
 NOTES = {'C06-d1': 'at its first evaluation it was reported through the rule `negotiated-but-not-compressed`, which was then removed as '
